@@ -210,7 +210,7 @@ def gen(ctx):
     T.append(("[(label $out | reduce inputs as $x (0; if $x == 3 then break $out else . + $x end)), input]", 1, [[4]], 4))
     T.append(("[(try reduce inputs as $x (0; error($x)) catch .), input]", 1, [[2, 3]], 3))
     T.append(("[reduce (1, input, input) as $x (0; empty)] | length", 1, [0], 1))
-    T.append(("try reduce (1, (def f: f; f)) as $x (0; error(\"stop\")) catch .", 1, [S("stop")], 1))
+    T.append(("try reduce (1, (def f: f; f)) as $x (0; error(7)) catch .", 1, [7], 1))
     T.append(("[reduce (1, (def f: f; f)) as $x (0; empty)]", 1, [[]], 1))
     for j in range(1, 5):
         T.append(("limit(%d; inputs)" % j, j, list(range(2, 2 + j)), j + 1))
